@@ -595,6 +595,7 @@ def r07_5(ctx, counts) -> RuleResult:
             fs = facts[holder.id] if holder is not None else frozenset()
             only_float = any(fa.startswith('+') and 'isinstance(' in fa and
                              'Float' in fa and 'DoubleProxy' not in fa and ', float)' not in fa
+                             and not fa.startswith('+any(')      # one xs:float is not enough
                              for fa in fs)
             if only_float:
                 res.ok()
@@ -605,6 +606,89 @@ def r07_5(ctx, counts) -> RuleResult:
                                  f'{sorted(fs)[:2]}): 1.00000001e0 eq 1.00000002e0 and '
                                  f'0.1e0 + 0.2e0 eq 0.3e0 are true for xs:double'))
     counts['tolerance_comparisons'] = n
+    return res
+
+_ABSENCE_SELFTEST = """
+def ebv(obj):
+    items = iter(obj)
+    first = next(items, None)
+    if not first:
+        return False
+    return True
+"""
+
+
+def _absence_sites(fnode: ast.AST) -> list[tuple[ast.AST, str]]:
+    """bare truthiness tests of a name bound from next(<iterator>, None)"""
+    bound = set()
+    for x in ast.walk(fnode):
+        if isinstance(x, ast.Assign) and isinstance(x.value, ast.Call) \
+                and dotted(x.value.func) == 'next' and len(x.value.args) == 2 \
+                and isinstance(x.value.args[1], ast.Constant) and x.value.args[1].value is None:
+            for t in x.targets:
+                if isinstance(t, ast.Name):
+                    bound.add(t.id)
+    out: list[tuple[ast.AST, str]] = []
+    if not bound:
+        return out
+
+    def truth_operands(e: ast.expr) -> list[ast.expr]:
+        if isinstance(e, ast.BoolOp):
+            return [y for v in e.values for y in truth_operands(v)]
+        if isinstance(e, ast.UnaryOp) and isinstance(e.op, ast.Not):
+            return truth_operands(e.operand)
+        return [e]
+    for x in ast.walk(fnode):
+        tests = []
+        if isinstance(x, (ast.If, ast.While, ast.IfExp)):
+            tests = [x.test]
+        elif isinstance(x, ast.Assert):
+            tests = [x.test]
+        for t in tests:
+            for e in truth_operands(t):
+                if isinstance(e, ast.Name) and e.id in bound:
+                    out.append((x, e.id))
+    return out
+
+
+def r07_9(ctx, counts) -> RuleResult:
+    """absence of an item is `is None`, never the truthiness of the item"""
+    model: Model = ctx.model
+    res = RuleResult(
+        'R07.9', 'ITEM-TRUTHINESS-IS-NOT-ABSENCE',
+        'The items of a sequence include 0, 0.0, "", false() and NaN, whose Python truth value '
+        'is false. A name bound from next(<iterator>, None) — "the first item, or None when '
+        'there is none" — is therefore tested for absence with `is None` / `is not None`, never '
+        'with its bare truthiness (`if not first`, `first and …`): the effective boolean value '
+        'of (0, 1) is an error (FORG0006), not false, and `(0, 1) and true()` must raise. '
+        'Checked in every function of the package; the detector is exercised on every run on a '
+        'built-in positive example, because the expected number of sites on a correct tree is 0.')
+    probe = _absence_sites(ast.parse(_ABSENCE_SELFTEST))
+    if len(probe) != 1:
+        raise AnalysisError('R07.9 self-test: the built-in positive example was not matched')
+    n = sites = 0
+    for f in sorted(model.all_functions(), key=lambda q: q.key):
+        if not f.module.name.startswith('elementpath'):
+            continue
+        has_next = any(isinstance(c, ast.Call) and dotted(c.func) == 'next' and len(c.args) == 2
+                       for c in walk_local(f.node))
+        if not has_next:
+            continue
+        n += 1
+        bad = _absence_sites(f.node)
+        res.instances.append(f'{f.key}: next(.., default) used; truthiness tests of the result: '
+                             f'{len(bad)}')
+        if not bad:
+            res.ok()
+        for x, name in bad:
+            sites += 1
+            res.fail(finding('R07.9', f, x, f'truthiness of {name} as absence',
+                             f'`{stmt_text(x)[:50]}` tests the truth value of `{name}`, bound '
+                             f'from next(.., None): the items 0, "", false() and NaN are taken '
+                             f'for "no item" (boolean((0, 1)) is false instead of FORG0006)'))
+    counts['next_default_functions'] = n
+    if n < 1:
+        raise AnalysisError('no function uses next(.., default): the scan lost its subjects')
     return res
 
 
@@ -792,7 +876,7 @@ def run(ctx) -> dict:
     counts['virtual_relations'] = len(lat.virtual)
     return {
         'results': [res, r07_2(ctx, counts), r07_3(ctx, counts), r07_4(ctx, counts),
-                    r07_5(ctx, counts), r07_6(ctx, counts)] + _shared(ctx, counts),
+                    r07_5(ctx, counts), r07_6(ctx, counts), r07_9(ctx, counts)] + _shared(ctx, counts),
         'counts': counts,
         'explanation':
             'Dispatch-order soundness, decided over the class lattice of the source model: in '
